@@ -649,8 +649,11 @@ func genRespawnStorm(out *bufio.Writer, rng *rand.Rand, tag string, count int) i
 func genRingEdge(out *bufio.Writer, rng *rand.Rand, tag string, count int, thorough bool) int {
 	for n := 0; n < count; n++ {
 		k := []uint{6, 6, 6, 7, 7, 7, 8, 8, 9, 9, 10, 11, 12, 13}[rng.Intn(14)] // 64 … 8192, small ones more often (they are cheap)
-		if thorough && n == 0 {
-			k = 16
+		if !thorough && k > 11 {
+			k = uint(6 + rng.Intn(3)) // quick tier: limits up to 4096 (the larger ones are in the thorough tier)
+		}
+		if thorough && n == 0 && tag == "battle" {
+			k = 16 // one case with a limit above 65536 (16 minutes in the driver): battle domain only
 		}
 		base := uint64(1) << k
 		p := base + 1 + uint64(rng.Intn(int(base)-1))
@@ -726,9 +729,9 @@ func genCounts(out *bufio.Writer, rng *rand.Rand, thorough bool) int {
 		c.end()
 		n++
 	}
-	// warriors
+	// warriors (on a core above 300 cells: the driver follows the model only, not the list-based reference)
 	{
-		m := uint64(16)
+		m := uint64(320)
 		cfg := gmars.SimulatorConfig{Mode: gmars.ICWS94, CoreSize: gmars.Address(m), Processes: 2, Cycles: 4,
 			ReadLimit: gmars.Address(m), WriteLimit: gmars.Address(m), Length: 1, Distance: 1}
 		c := newAPICase(out, fmt.Sprintf("cn%d", n), "api", cfg, false)
